@@ -248,8 +248,8 @@ extern "C" int sort()
 }
 #endif
 
-#if TRACKED && CONT != 3
-// C04: self assignment and arguments that alias the container or one of its elements
+#if CONT != 3
+// C04 (with plain elements the engine's use-after-free / bounds checks decide): self assignment and arguments that alias the container or one of its elements
 extern "C" int self_args()
 {
   {
@@ -273,7 +273,9 @@ extern "C" int self_args()
     }
     check(a, ma, false);
   }
+#if TRACKED
   ledgerExpectEmpty();
+#endif
   vf_reach("end");
   return 0;
 }
